@@ -10,6 +10,12 @@ package p2c
 // projection [infl, succ, lag] of the picker's connections is logged.  The log (ndjson) is
 // validated step by step against spec/P2C.tla by spec/P2CTrace.tla; this file decides nothing.
 //
+// Every Pick and every completion callback runs under a watchdog (c14Guard / c14Await): a call that
+// has not returned while every goroutine of the process has been blocked for seconds (or that made no
+// progress for two minutes), or that panics, is logged as a "fault" event (with the stacks of the
+// blocked goroutines) and ends its history; the trace spec rejects it (pick-never-returns,
+// done-never-returns, pick-panics, done-panics).  It is never a harness error.
+//
 //   VERIF_C14_MODE=seq    sequential traces (every step validated)
 //   VERIF_C14_MODE=conc   8 goroutines per picker; only the quiescent end state is logged
 //   VERIF_C14_MODE=streak one backend fails every call, completions 1-5 ms apart (n = 1 and n = 3),
@@ -23,6 +29,9 @@ package p2c
 //                         completions of its calls); picks and completions of all of them interleaved.
 //                         Every event names its picker ("p"); a picker's ready connections are those
 //                         of its own build
+//   VERIF_C14_MODE=idle   idle periods: rounds of (picks, completions, a gap of 30 s / 1 min / 61 s / 5 min
+//                         without any pick while 0, 1 or 2 calls stay in flight, completions after the
+//                         gap), then picks again; the first round enumerated, the following ones seeded
 //   VERIF_C14_MODE=stats  long 1 kHz runs with one dead backend; measured shares and pick gaps
 //                         are written as JSON (the thresholds live in checks/c14.py)
 
@@ -33,7 +42,9 @@ import (
 	"fmt"
 	"math/rand"
 	"os"
+	"runtime"
 	"sort"
+	"strings"
 	"sync"
 	"sync/atomic"
 	"testing"
@@ -200,6 +211,205 @@ type c14Picker struct {
 	held   []int      // ids of the connections found in the picker after its build (0 = unknown SubConn)
 	note   string     // set when the published picker refuses to pick
 	sub    []*subConn // connection id -> the picker's record at build time (nil: none)
+	// the driver's own record: calls picked and not completed per connection, time of the last pick
+	pending  []int
+	lastPick int64
+}
+
+// ---------------------------------------------------------------- watchdog
+
+// c14Fault: an operation that was invoked and did not return (kind "never-returns") or panicked
+// (kind "panics")
+type c14Fault struct{ kind, detail string }
+
+var (
+	c14Faults    atomic.Int32 // faults logged by this process
+	c14MaxFaults = int32(kit.EnvInt("VERIF_C14_MAXFAULTS", 3))
+	// how long a call may stay without return while goroutines of the process are still runnable
+	c14Limit = time.Duration(kit.EnvInt("VERIF_C14_LIMIT_S", 120)) * time.Second
+)
+
+// c14Enough: so many histories of this process ended in a fault that the remaining ones are not
+// recorded (every one of them costs seconds of real time)
+func c14Enough() bool { return c14Faults.Load() >= c14MaxFaults }
+
+// c14Goroutines splits a dump of all stacks into (state, text) per goroutine.
+func c14Goroutines(dump string) (out [][2]string) {
+	for _, blk := range strings.Split(dump, "\n\n") {
+		blk = strings.TrimSpace(blk)
+		if !strings.HasPrefix(blk, "goroutine ") {
+			continue
+		}
+		head := blk
+		if i := strings.IndexByte(blk, '\n'); i >= 0 {
+			head = blk[:i]
+		}
+		st := ""
+		if i, j := strings.IndexByte(head, '['), strings.LastIndexByte(head, ']'); i >= 0 && j > i {
+			st = head[i+1 : j]
+		}
+		out = append(out, [2]string{st, blk})
+	}
+	return out
+}
+
+// c14AllBlocked: no goroutine other than the caller can run - all are waiting for a lock, a channel,
+// a wait group ...  (a sleeping goroutine, one in a system call or in I/O may still wake up by
+// itself and counts as active).  Second result: the stacks of the goroutines inside this package.
+func c14AllBlocked() (bool, string) {
+	all := true
+	var mine []string
+	for _, g := range c14Goroutines(kit.Stacks()) {
+		st, blk := g[0], g[1]
+		if strings.Contains(blk, "verifkit.Stacks(") {
+			continue // the watchdog itself
+		}
+		active := strings.HasPrefix(st, "running") || strings.HasPrefix(st, "runnable") || strings.HasPrefix(st, "sleep") ||
+			strings.HasPrefix(st, "IO wait") || (strings.HasPrefix(st, "syscall") && !strings.Contains(blk, "signal_recv"))
+		if active {
+			all = false
+		}
+		if strings.Contains(blk, "balancer/p2c.") && !strings.Contains(blk, "p2c.TestVerifC14(") {
+			mine = append(mine, blk)
+		}
+	}
+	txt := strings.Join(mine, "\n\n")
+	if len(txt) > 6000 {
+		txt = txt[:6000] + "\n..."
+	}
+	return all, txt
+}
+
+// c14Await waits for done.  nil: it came.  Otherwise the awaited call did not return: either every
+// goroutine of the process was found blocked at three looks one second apart (nothing can ever
+// release the call: no timer, no I/O is pending in this package), or nothing moved (progress, when
+// given, unchanged) for c14Limit although goroutines were runnable.  No fixed real-time budget
+// decides: on a loaded machine a runnable goroutine keeps the watchdog waiting.
+func c14Await(done <-chan struct{}, progress func() int64) *c14Fault {
+	t := time.NewTimer(2 * time.Second)
+	select {
+	case <-done:
+		t.Stop()
+		return nil
+	case <-t.C:
+	}
+	began := time.Now().Add(-2 * time.Second)
+	var last int64
+	if progress != nil {
+		last = progress()
+	}
+	moved, blocked := time.Now(), 0
+	for {
+		t.Reset(time.Second)
+		select {
+		case <-done:
+			t.Stop()
+			return nil
+		case <-t.C:
+		}
+		if progress != nil {
+			if p := progress(); p != last {
+				last, moved, blocked = p, time.Now(), 0
+				continue
+			}
+		}
+		all, stacks := c14AllBlocked()
+		if all {
+			blocked++
+		} else {
+			blocked = 0
+		}
+		if blocked >= 3 {
+			return &c14Fault{"never-returns", fmt.Sprintf("no return after %.0f s of real time and every goroutine of the process is blocked "+
+				"(looked three times, one second apart); stacks:\n%s", time.Since(began).Seconds(), stacks)}
+		}
+		if time.Since(moved) > c14Limit {
+			return &c14Fault{"never-returns", fmt.Sprintf("no return and no progress for %.0f s of real time (goroutines still runnable); stacks:\n%s",
+				time.Since(moved).Seconds(), stacks)}
+		}
+	}
+}
+
+// c14Guard runs one operation of the code under test in its own goroutine under the watchdog.
+func c14Guard(f func()) *c14Fault {
+	done := make(chan struct{})
+	var pv any
+	var pstack string
+	go func() {
+		defer close(done)
+		defer func() {
+			if pv = recover(); pv != nil {
+				buf := make([]byte, 4096)
+				pstack = string(buf[:runtime.Stack(buf, false)])
+			}
+		}()
+		f()
+	}()
+	if ft := c14Await(done, nil); ft != nil {
+		return ft
+	}
+	if pv != nil {
+		return &c14Fault{"panics", fmt.Sprintf("panic: %v\n%s", pv, pstack)}
+	}
+	return nil
+}
+
+var c14Info = balancer.PickInfo{FullMethodName: "/verif/C14", Ctx: context.Background()}
+
+// fault logs an operation of this picker that did not return; the history ends with it.
+func (cp *c14Picker) fault(tr *kit.Tracer, op string, c int, ft *c14Fault) {
+	c14Faults.Add(1)
+	pend, idle := 0, int64(-1)
+	if c > 0 && c < len(cp.pending) {
+		pend = cp.pending[c]
+	}
+	if cp.lastPick >= 0 {
+		idle = cp.ms() - cp.lastPick
+	}
+	inflight := 0
+	for _, k := range cp.pending {
+		inflight += k
+	}
+	tr.Emit(cp.proj(kit.M{"ev": "fault", "op": op, "kind": ft.kind, "p": cp.pid, "c": c, "pending": pend, "t": cp.ms(),
+		"since_last_pick_ms": idle, "calls_in_flight": inflight, "note": ft.detail}))
+}
+
+// pick: one Pick of this picker under the watchdog, logged as "pick" (or as a fault).  ok = false:
+// the rest of the history cannot be attributed (it ends).
+func (cp *c14Picker) pick(tr *kit.Tracer) (call c14Call, ok bool) {
+	start := cp.clock.Now()
+	var res balancer.PickResult
+	var err error
+	if ft := c14Guard(func() { res, err = cp.picker.Pick(c14Info) }); ft != nil {
+		cp.fault(tr, "pick", 0, ft)
+		return call, false
+	}
+	if err != nil {
+		cp.pickFailed(tr, err)
+		return call, false
+	}
+	c := cp.byConn[res.SubConn] // 0 = not a connection of this history
+	tr.Emit(cp.proj(kit.M{"ev": "pick", "p": cp.pid, "c": c, "t": cp.ms()}))
+	if c == 0 || cp.sub[c] == nil || res.Done == nil {
+		return call, false
+	}
+	cp.pending[c]++
+	cp.lastPick = cp.ms()
+	return c14Call{cp: cp, c: c, start: start, done: res.Done}, true
+}
+
+// finish: the completion callback of one call under the watchdog, logged as "done" (or as a fault);
+// false: the history ends.
+func (call c14Call) finish(tr *kit.Tracer, code string) bool {
+	cp := call.cp
+	lat := int64((cp.clock.Now() - call.start) / time.Microsecond)
+	if ft := c14Guard(func() { call.done(balancer.DoneInfo{Err: c14Err(code)}) }); ft != nil {
+		cp.fault(tr, "done", call.c, ft)
+		return false
+	}
+	cp.pending[call.c]--
+	tr.Emit(cp.proj(kit.M{"ev": "done", "p": cp.pid, "c": call.c, "code": code, "lat": lat, "t": cp.ms()}))
+	return true
 }
 
 // register wraps the picker the client's balancer published last.  nil, nil: nothing to drive (no
@@ -215,12 +425,12 @@ func (w *c14World) register(cl *c14Client, seed int64) (*c14Picker, error) {
 		return nil, errors.New("c14: more pickers than the budget of one history")
 	}
 	cp := &c14Picker{c14World: w, pid: w.npick, client: cl.id, n: w.univ, picker: cl.latest, p: p, ready: ready,
-		held: []int{}, sub: make([]*subConn, w.univ+1)}
+		held: []int{}, sub: make([]*subConn, w.univ+1), pending: make([]int, w.univ+1), lastPick: -1}
 	w.npick++
 	if !ok {
 		// connections are ready and the balancer published something else: a picker that picks is
 		// beyond this driver (harness limit); one that refuses is logged as a picker holding nothing
-		_, err := cl.latest.Pick(balancer.PickInfo{FullMethodName: "/verif/C14", Ctx: context.Background()})
+		_, err := cl.latest.Pick(c14Info)
 		if err == nil {
 			return nil, fmt.Errorf("builder returned %T, the driver knows *p2cPicker", cl.latest)
 		}
@@ -327,6 +537,7 @@ func c14Err(code string) error {
 }
 
 type c14Call struct {
+	cp    *c14Picker
 	c     int
 	start time.Duration
 	done  func(balancer.DoneInfo)
@@ -370,18 +581,11 @@ func c14SeqTrace(tr *kit.Tracer, id, n, ops int, seed int64) error {
 		}
 		doPick := len(calls) == 0 || (len(calls) < 6 && rng.Intn(100) < 55)
 		if doPick {
-			start := cp.clock.Now()
-			res, err := cp.picker.Pick(balancer.PickInfo{FullMethodName: "/verif/C14", Ctx: context.Background()})
-			if err != nil {
-				cp.pickFailed(tr, err)
-				return nil
-			}
-			c := cp.byConn[res.SubConn] // 0 = not one of the ready connections
-			tr.Emit(cp.proj(kit.M{"ev": "pick", "c": c, "t": cp.ms()}))
-			if c == 0 || res.Done == nil {
+			call, ok := cp.pick(tr)
+			if !ok {
 				return nil // the rest of the trace cannot be attributed
 			}
-			calls = append(calls, c14Call{c: c, start: start, done: res.Done})
+			calls = append(calls, call)
 			continue
 		}
 		i := rng.Intn(len(calls))
@@ -396,9 +600,9 @@ func c14SeqTrace(tr *kit.Tracer, id, n, ops int, seed int64) error {
 		case profile == 3 && rng.Intn(4) > 0:
 			code = []string{"DeadlineExceeded", "Internal", "Unavailable", "DataLoss", "Unimplemented"}[rng.Intn(5)]
 		}
-		lat := int64((cp.clock.Now() - call.start) / time.Microsecond)
-		call.done(balancer.DoneInfo{Err: c14Err(code)})
-		tr.Emit(cp.proj(kit.M{"ev": "done", "c": call.c, "code": code, "lat": lat, "t": cp.ms()}))
+		if !call.finish(tr, code) {
+			return nil
+		}
 	}
 	return nil
 }
@@ -417,17 +621,11 @@ func c14StreakTrace(tr *kit.Tracer, id, n, want, maxPicks int, seed int64) error
 	}
 	done1 := 0
 	for k := 0; k < maxPicks && done1 < want; k++ {
-		start := cp.clock.Now()
-		res, err := cp.picker.Pick(balancer.PickInfo{FullMethodName: "/verif/C14", Ctx: context.Background()})
-		if err != nil {
-			cp.pickFailed(tr, err)
+		call, ok := cp.pick(tr)
+		if !ok {
 			return nil
 		}
-		c := cp.byConn[res.SubConn]
-		tr.Emit(cp.proj(kit.M{"ev": "pick", "c": c, "t": cp.ms()}))
-		if c == 0 || res.Done == nil {
-			return nil
-		}
+		c := call.c
 		cp.clock.Advance(time.Duration(1+rng.Intn(5)) * time.Millisecond)
 		code := "nil"
 		if c == 1 {
@@ -436,9 +634,9 @@ func c14StreakTrace(tr *kit.Tracer, id, n, want, maxPicks int, seed int64) error
 			}
 			done1++
 		}
-		lat := int64((cp.clock.Now() - start) / time.Microsecond)
-		res.Done(balancer.DoneInfo{Err: c14Err(code)})
-		tr.Emit(cp.proj(kit.M{"ev": "done", "c": c, "code": code, "lat": lat, "t": cp.ms()}))
+		if !call.finish(tr, code) {
+			return nil
+		}
 	}
 	return nil
 }
@@ -458,19 +656,11 @@ func c14ReorderTrace(tr *kit.Tracer, id, n int, seed int64) error {
 	}
 	var calls []c14Call
 	pick := func() (bool, error) {
-		start := cp.clock.Now()
-		res, err := cp.picker.Pick(balancer.PickInfo{FullMethodName: "/verif/C14", Ctx: context.Background()})
-		if err != nil {
-			cp.pickFailed(tr, err)
-			return false, nil
+		call, ok := cp.pick(tr)
+		if ok {
+			calls = append(calls, call)
 		}
-		c := cp.byConn[res.SubConn]
-		tr.Emit(cp.proj(kit.M{"ev": "pick", "c": c, "t": cp.ms()}))
-		if c == 0 || res.Done == nil {
-			return false, nil
-		}
-		calls = append(calls, c14Call{c: c, start: start, done: res.Done})
-		return true, nil
+		return ok, nil
 	}
 	code := func() string {
 		if rng.Intn(2) == 0 {
@@ -478,13 +668,10 @@ func c14ReorderTrace(tr *kit.Tracer, id, n int, seed int64) error {
 		}
 		return []string{"nil", "plain", "OK", "Canceled", "NotFound", "Aborted"}[rng.Intn(6)]
 	}
-	finish := func(i int) {
+	finish := func(i int) bool {
 		call := calls[i]
 		calls = append(calls[:i], calls[i+1:]...)
-		cd := code()
-		lat := int64((cp.clock.Now() - call.start) / time.Microsecond)
-		call.done(balancer.DoneInfo{Err: c14Err(cd)})
-		tr.Emit(cp.proj(kit.M{"ev": "done", "c": call.c, "code": cd, "lat": lat, "t": cp.ms()}))
+		return call.finish(tr, code())
 	}
 	for round := 0; round < 3; round++ {
 		// warm-up: vary scores and estimates
@@ -496,8 +683,8 @@ func c14ReorderTrace(tr *kit.Tracer, id, n int, seed int64) error {
 				if ok, err := pick(); err != nil || !ok {
 					return err
 				}
-			} else {
-				finish(rng.Intn(len(calls)))
+			} else if !finish(rng.Intn(len(calls))) {
+				return nil
 			}
 		}
 		// two outstanding calls on one connection
@@ -540,29 +727,32 @@ func c14ReorderTrace(tr *kit.Tracer, id, n int, seed int64) error {
 			ca.done(balancer.DoneInfo{Err: c14Err(codeA)})
 			close(fin)
 		}()
-		select {
-		case <-cp.parked:
-		case <-time.After(10 * time.Second):
-			return errors.New("completion A did not read the clock (gate not reached)")
+		if ft := c14Await(cp.parked, nil); ft != nil { // A neither read the clock nor returned
+			cp.armed.Store(false)
+			cp.fault(tr, "done", ca.c, ft)
+			return nil
 		}
-		tr.Emit(cp.proj(kit.M{"ev": "dbegin", "c": ca.c, "t": cp.ms()}))
-		delay := []int{1000, 1500, 2000, 3000, 5000, 10000, 30000}[rng.Intn(7)]
+		tr.Emit(cp.proj(kit.M{"ev": "dbegin", "p": cp.pid, "c": ca.c, "t": cp.ms()}))
+		delay := []int{1000, 1500, 2000, 3000, 5000, 10000, 30000, 61000}[rng.Intn(8)]
 		cp.clock.Advance(time.Duration(delay) * time.Millisecond)
-		latB := int64((cp.clock.Now() - cb.start) / time.Microsecond)
-		cb.done(balancer.DoneInfo{Err: c14Err(codeB)})
-		tr.Emit(cp.proj(kit.M{"ev": "done", "c": cb.c, "code": codeB, "lat": latB, "t": cp.ms()}))
-		cp.release <- struct{}{}
-		select {
-		case <-fin:
-		case <-time.After(10 * time.Second):
-			return errors.New("completion A did not finish after its release")
+		cp.pending[ca.c]-- // A has begun (in-flight decremented)
+		if !cb.finish(tr, codeB) {
+			return nil
 		}
-		tr.Emit(cp.proj(kit.M{"ev": "dend", "c": ca.c, "code": codeA, "lat": int64((tA - ca.start) / time.Microsecond),
+		cp.release <- struct{}{}
+		if ft := c14Await(fin, nil); ft != nil {
+			cp.pending[ca.c]++ // A is still on its way
+			cp.fault(tr, "done", ca.c, ft)
+			return nil
+		}
+		tr.Emit(cp.proj(kit.M{"ev": "dend", "p": cp.pid, "c": ca.c, "code": codeA, "lat": int64((tA - ca.start) / time.Microsecond),
 			"t": int64((tA - cp.base) / time.Millisecond)}))
 	}
 	for len(calls) > 0 {
 		cp.clock.Advance(time.Duration(1+rng.Intn(300)) * time.Millisecond)
-		finish(0)
+		if !finish(0) {
+			return nil
+		}
 	}
 	return nil
 }
@@ -582,14 +772,32 @@ func c14ConcTrace(tr *kit.Tracer, id, n, g, iters int, seed int64) error {
 	lmin, lmax, seen := make([]int64, n+1), make([]int64, n+1), make([]int64, n+1)
 	var bad atomic.Value
 	var wg sync.WaitGroup
+	// what every worker is doing (0 nothing, -1 inside Pick, c > 0 inside the completion of a call of
+	// connection c), the operations finished so far, and the panic of a worker, if any
+	doing := make([]atomic.Int64, g)
+	var progress atomic.Int64
+	var panicked atomic.Value
 	for w := 0; w < g; w++ {
 		wg.Add(1)
 		go func(w int) {
 			defer wg.Done()
+			defer func() {
+				if pv := recover(); pv != nil {
+					buf := make([]byte, 4096)
+					panicked.CompareAndSwap(nil, [2]any{doing[w].Load(), fmt.Sprintf("panic: %v\n%s", pv, buf[:runtime.Stack(buf, false)])})
+				}
+			}()
 			rng := rand.New(rand.NewSource(seed*131 + int64(w)))
 			for k := 0; k < iters; k++ {
+				if w == 0 && (k == iters/3 || k == 2*iters/3) {
+					// an idle period: more than a minute passes between two operations
+					cp.clock.Advance([]time.Duration{61 * time.Second, 5 * time.Minute}[rng.Intn(2)])
+				}
 				t0 := cp.clock.Now()
-				res, err := cp.picker.Pick(balancer.PickInfo{FullMethodName: "/verif/C14", Ctx: context.Background()})
+				doing[w].Store(-1)
+				res, err := cp.picker.Pick(c14Info)
+				doing[w].Store(0)
+				progress.Add(1)
 				t1 := cp.clock.Now()
 				if err != nil {
 					bad.Store(fmt.Sprintf("Pick failed: %v", err))
@@ -606,7 +814,10 @@ func c14ConcTrace(tr *kit.Tracer, id, n, g, iters int, seed int64) error {
 				}
 				code := c14Codes[rng.Intn(len(c14Codes))]
 				t2 := cp.clock.Now()
+				doing[w].Store(int64(c))
 				res.Done(balancer.DoneInfo{Err: c14Err(code)})
+				doing[w].Store(0)
+				progress.Add(1)
 				t3 := cp.clock.Now()
 				dones[c].Add(1)
 				lo, hi := int64((t2-t1)/time.Microsecond), int64((t3-t0)/time.Microsecond)
@@ -622,7 +833,30 @@ func c14ConcTrace(tr *kit.Tracer, id, n, g, iters int, seed int64) error {
 			}
 		}(w)
 	}
-	wg.Wait()
+	joined := make(chan struct{})
+	go func() { wg.Wait(); close(joined) }()
+	ft := c14Await(joined, progress.Load)
+	op := int64(0)
+	if ft != nil { // the callers never came back: name an operation one of them is inside of
+		for w := range doing {
+			if d := doing[w].Load(); d != 0 && (op == 0 || d < 0) {
+				op = d
+			}
+		}
+	} else if pv, ok := panicked.Load().([2]any); ok {
+		ft, op = &c14Fault{"panics", pv[1].(string)}, pv[0].(int64)
+	}
+	if ft != nil {
+		for i := 1; i <= n; i++ {
+			cp.pending[i] = int(picks[i].Load() - dones[i].Load())
+		}
+		if op > 0 {
+			cp.fault(tr, "done", int(op), ft)
+		} else {
+			cp.fault(tr, "pick", 0, ft)
+		}
+		return nil
+	}
 	if m, ok := bad.Load().(string); ok {
 		tr.Emit(cp.proj(kit.M{"ev": "pick", "c": 0, "t": cp.ms(), "note": m}))
 		return nil
@@ -640,13 +874,6 @@ func c14ConcTrace(tr *kit.Tracer, id, n, g, iters int, seed int64) error {
 // client sizes of the multi histories (at most 8 connections per history); every connection that
 // becomes ready or leaves the ready set makes the client's balancer publish a new picker
 var c14Shapes = [][]int{{3, 2}, {2, 3}, {3, 3, 2}, {2, 2}, {1, 3}, {4, 2, 2}, {3, 1}, {2, 1, 2}, {5, 3}, {3, 3}, {1, 1, 1}, {2, 4}}
-
-type c14MCall struct {
-	cp    *c14Picker
-	c     int
-	start time.Duration
-	done  func(balancer.DoneInfo)
-}
 
 // one multi-picker history: clients are created one after the other by the registered builder,
 // their connections become ready, go down (transient failure or idle) and come back; the pickers
@@ -666,7 +893,7 @@ func c14MultiTrace(tr *kit.Tracer, id, ops int, seed int64) error {
 	latest := map[*c14Client]*c14Picker{}
 	var old []*c14Picker // superseded pickers with grace picks left
 	grace := map[*c14Picker]int{}
-	var calls []c14MCall
+	var calls []c14Call
 	broken := false // a picker that cannot be driven was logged: the history ends
 	// handle what the client's balancer published since the driver looked last
 	publish := func(cl *c14Client) error {
@@ -694,30 +921,20 @@ func c14MultiTrace(tr *kit.Tracer, id, ops int, seed int64) error {
 	}
 	room := func(k int) bool { return w.npick+k <= c14MaxPickers }
 	pickOn := func(cp *c14Picker) bool {
-		start := w.clock.Now()
-		res, err := cp.picker.Pick(balancer.PickInfo{FullMethodName: "/verif/C14", Ctx: context.Background()})
-		if err != nil {
-			cp.pickFailed(tr, err)
-			return false
+		call, ok := cp.pick(tr)
+		if ok {
+			calls = append(calls, call)
 		}
-		c := w.byConn[res.SubConn] // 0 = not a connection of this history
-		tr.Emit(cp.proj(kit.M{"ev": "pick", "p": cp.pid, "c": c, "t": w.ms()}))
-		if c == 0 || cp.sub[c] == nil || res.Done == nil {
-			return false // the rest of the history cannot be attributed
-		}
-		calls = append(calls, c14MCall{cp: cp, c: c, start: start, done: res.Done})
-		return true
+		return ok // false: the rest of the history cannot be attributed
 	}
-	finish := func(i int) {
+	finish := func(i int) bool {
 		call := calls[i]
 		calls = append(calls[:i], calls[i+1:]...)
 		code := c14Codes[rng.Intn(len(c14Codes))]
 		if rng.Intn(3) == 0 {
 			code = "nil"
 		}
-		lat := int64((w.clock.Now() - call.start) / time.Microsecond)
-		call.done(balancer.DoneInfo{Err: c14Err(code)})
-		tr.Emit(call.cp.proj(kit.M{"ev": "done", "p": call.cp.pid, "c": call.c, "code": code, "lat": lat, "t": w.ms()}))
+		return call.finish(tr, code)
 	}
 	for k := 0; k < ops && !broken; k++ {
 		if adv := c14PickAdv(rng); adv > 0 && w.ms() < 15*60*1000 {
@@ -792,7 +1009,9 @@ func c14MultiTrace(tr *kit.Tracer, id, ops int, seed int64) error {
 				return nil
 			}
 		case len(calls) > 0 && (len(calls) >= 10 || r >= 55 && r < 78):
-			finish(rng.Intn(len(calls)))
+			if !finish(rng.Intn(len(calls))) {
+				return nil
+			}
 		default:
 			if !pickOn(alive[rng.Intn(len(alive))]) {
 				return nil
@@ -801,9 +1020,132 @@ func c14MultiTrace(tr *kit.Tracer, id, ops int, seed int64) error {
 	}
 	for len(calls) > 0 && !broken {
 		w.clock.Advance(time.Duration(1+rng.Intn(300)) * time.Millisecond)
-		finish(rng.Intn(len(calls)))
+		if !finish(rng.Intn(len(calls))) {
+			return nil
+		}
 	}
 	return nil
+}
+
+// idle periods.  One round: picks until pre + k calls are in flight (none when enough are left over
+// from the round before), all but k of them complete a few milliseconds apart, then `gap` ms pass
+// without any pick while the k calls stay in flight, then `post` of them complete.
+type c14Round struct{ pre, k, gap, post int }
+
+// all rounds over the given gaps: pre 0..2 completions shortly before the gap, k 0..2 calls in flight
+// across it, 0..k completions after it
+func c14Rounds(gaps []int) (out []c14Round) {
+	for pre := 0; pre <= 2; pre++ {
+		for k := 0; k <= 2; k++ {
+			for _, g := range gaps {
+				for post := 0; post <= k; post++ {
+					out = append(out, c14Round{pre, k, g, post})
+				}
+			}
+		}
+	}
+	return out
+}
+
+var (
+	c14GapsQuick = []int{30000, 60000, 61000, 300000}
+	c14GapsFull  = []int{30000, 59999, 60000, 61000, 300000}
+)
+
+// one idle-period history on a fresh picker with n connections: the given rounds, then picks again
+// (two picks, a completion between them), then everything completes.
+func c14IdleTrace(tr *kit.Tracer, id, n int, rounds []c14Round, seed int64) error {
+	rng := rand.New(rand.NewSource(seed))
+	cp, err := newC14Picker(n, seed^0x5eed)
+	if err != nil {
+		return err
+	}
+	plan := make([][4]int, len(rounds))
+	for i, r := range rounds {
+		plan[i] = [4]int{r.pre, r.k, r.gap, r.post}
+	}
+	if !cp.start(tr, id, kit.M{"idle": plan}) {
+		return nil
+	}
+	var calls []c14Call
+	small := func() { cp.clock.Advance(time.Duration([]int{0, 1, 3, 20, 150}[rng.Intn(5)]) * time.Millisecond) }
+	code := func() string {
+		if rng.Intn(3) == 0 {
+			return "nil"
+		}
+		return c14Codes[rng.Intn(len(c14Codes))]
+	}
+	pick := func() bool {
+		call, ok := cp.pick(tr)
+		if ok {
+			calls = append(calls, call)
+		}
+		return ok
+	}
+	finish := func() bool {
+		i := rng.Intn(len(calls))
+		call := calls[i]
+		calls = append(calls[:i], calls[i+1:]...)
+		return call.finish(tr, code())
+	}
+	for _, r := range rounds {
+		for len(calls) < r.pre+r.k {
+			small()
+			if !pick() {
+				return nil
+			}
+		}
+		for len(calls) > r.k {
+			small()
+			if !finish() {
+				return nil
+			}
+		}
+		cp.clock.Advance(time.Duration(r.gap) * time.Millisecond)
+		for j := 0; j < r.post && len(calls) > 0; j++ {
+			if !finish() {
+				return nil
+			}
+			small()
+		}
+	}
+	// picks again
+	small()
+	if !pick() {
+		return nil
+	}
+	small()
+	if !finish() {
+		return nil
+	}
+	small()
+	if !pick() {
+		return nil
+	}
+	for len(calls) > 0 {
+		small()
+		if !finish() {
+			return nil
+		}
+	}
+	return nil
+}
+
+// the rounds of idle history `id`: the first round runs through all round types, the second one too
+// when `pairs` (all pairs of round types), otherwise it and the third are drawn from the seed
+func c14IdlePlan(id int, pairs bool, seed int64) (n int, rounds []c14Round) {
+	rng := rand.New(rand.NewSource(seed ^ 0x1d1e))
+	sizes := []int{1, 2, 3, 8}
+	if pairs {
+		all := c14Rounds(c14GapsFull)
+		k := len(all)
+		n = sizes[(id/(k*k)+id)%len(sizes)]
+		return n, []c14Round{all[id%k], all[(id/k)%k], all[rng.Intn(k)]}
+	}
+	all := c14Rounds(c14GapsQuick)
+	k := len(all)
+	n = sizes[(id/k)%len(sizes)]
+	return n, []c14Round{all[id%k], all[rng.Intn(k)], all[rng.Intn(k)]}
 }
 
 // stats: 1 kHz picks, every call completes 5 ms later; connection 1 fails every call in phase 1
@@ -840,10 +1182,16 @@ func c14Stats(n, total int, seed int64, deadLat int64) (kit.M, error) {
 				if fail && p.c == 1 {
 					e = status.Error(codes.Unavailable, "down")
 				}
-				p.don(balancer.DoneInfo{Err: e})
+				if ft := c14Guard(func() { p.don(balancer.DoneInfo{Err: e}) }); ft != nil {
+					return kit.M{"error": "the completion callback of a call of connection " + fmt.Sprint(p.c) + ": " + ft.detail, "key": "done-" + ft.kind}
+				}
 			}
 			q = rest
-			res, err := cp.picker.Pick(balancer.PickInfo{FullMethodName: "/verif/C14", Ctx: context.Background()})
+			var res balancer.PickResult
+			var err error
+			if ft := c14Guard(func() { res, err = cp.picker.Pick(c14Info) }); ft != nil {
+				return kit.M{"error": "Pick: " + ft.detail, "key": "pick-" + ft.kind}
+			}
 			if err != nil {
 				return kit.M{"error": err.Error()}
 			}
@@ -882,7 +1230,10 @@ func c14Stats(n, total int, seed int64, deadLat int64) (kit.M, error) {
 		return cp.proj(kit.M{"phase": phase, "picks": cnt, "max_gap_ms": gap, "counted": total - warm})
 	}
 	p1 := run(1, true)
-	p2 := run(2, false)
+	p2 := kit.M{"error": "not run: phase 1 ended early"}
+	if _, bad := p1["error"]; !bad {
+		p2 = run(2, false)
+	}
 	return kit.M{"n": n, "dead_lat_ms": deadLat, "total": total, "phase1": p1, "phase2": p2}, nil
 }
 
@@ -904,7 +1255,7 @@ func TestVerifC14(t *testing.T) {
 		defer tr.Close()
 		traces, ops := kit.EnvInt("VERIF_C14_TRACES", 200), kit.EnvInt("VERIF_C14_OPS", 60)
 		for id := 0; id < traces; id++ {
-			if only >= 0 && id != only {
+			if (only >= 0 && id != only) || c14Enough() {
 				continue
 			}
 			if err := c14SeqTrace(tr, id, sizes[id%len(sizes)], ops, seed*1000003+int64(id)); err != nil {
@@ -919,7 +1270,7 @@ func TestVerifC14(t *testing.T) {
 		defer tr.Close()
 		traces, iters := kit.EnvInt("VERIF_C14_TRACES", 20), kit.EnvInt("VERIF_C14_OPS", 500)
 		for id := 0; id < traces; id++ {
-			if only >= 0 && id != only {
+			if (only >= 0 && id != only) || c14Enough() {
 				continue
 			}
 			if err := c14ConcTrace(tr, id, sizes[id%len(sizes)], 8, iters, seed*1000003+int64(id)); err != nil {
@@ -934,7 +1285,7 @@ func TestVerifC14(t *testing.T) {
 		defer tr.Close()
 		traces, ops := kit.EnvInt("VERIF_C14_TRACES", 200), kit.EnvInt("VERIF_C14_OPS", 120)
 		for id := 0; id < traces; id++ {
-			if only >= 0 && id != only {
+			if (only >= 0 && id != only) || c14Enough() {
 				continue
 			}
 			if err := c14MultiTrace(tr, id, ops, seed*1000003+int64(id)); err != nil {
@@ -949,7 +1300,7 @@ func TestVerifC14(t *testing.T) {
 		defer tr.Close()
 		want := kit.EnvInt("VERIF_C14_STREAK", 22000)
 		for id, n := range []int{1, 3} {
-			if only >= 0 && id != only {
+			if (only >= 0 && id != only) || c14Enough() {
 				continue
 			}
 			if err := c14StreakTrace(tr, id, n, want, want*7/2, seed*1000003+int64(id)); err != nil {
@@ -964,11 +1315,33 @@ func TestVerifC14(t *testing.T) {
 		defer tr.Close()
 		traces := kit.EnvInt("VERIF_C14_TRACES", 150)
 		for id := 0; id < traces; id++ {
-			if only >= 0 && id != only {
+			if (only >= 0 && id != only) || c14Enough() {
 				continue
 			}
 			if err := c14ReorderTrace(tr, id, []int{1, 2, 3}[id%3], seed*1000003+int64(id)); err != nil {
 				t.Fatalf("reorder trace %d: %v", id, err)
+			}
+		}
+	case "idle":
+		tr, err := kit.NewTracer(out)
+		if err != nil {
+			t.Fatal(err)
+		}
+		defer tr.Close()
+		pairs := kit.EnvInt("VERIF_C14_PAIRS", 0) != 0
+		k := len(c14Rounds(c14GapsQuick))
+		traces := kit.EnvInt("VERIF_C14_TRACES", 4*k)
+		if pairs {
+			k = len(c14Rounds(c14GapsFull))
+			traces = kit.EnvInt("VERIF_C14_TRACES", k*k)
+		}
+		for id := 0; id < traces; id++ {
+			if (only >= 0 && id != only) || c14Enough() {
+				continue
+			}
+			n, rounds := c14IdlePlan(id, pairs, seed*1000003+int64(id))
+			if err := c14IdleTrace(tr, id, n, rounds, seed*1000003+int64(id)); err != nil {
+				t.Fatalf("idle history %d: %v", id, err)
 			}
 		}
 	case "stats":
